@@ -34,7 +34,7 @@ def jobs_for(u, tier, known):
             jobs.append(("kf-confirm", ["VF_KF_ONLY"], k))
     else:
         jobs.append(("main", [], None))
-    if tier == "thorough" and u.get("canary", True):
+    if u.get("canary", True) and (tier == "thorough" or u.get("canary_quick", True)):
         jobs.append(("canary", ["VF_CANARY"], None))
     return jobs
 
@@ -109,7 +109,7 @@ def main():
             rd = os.path.join(VERIF, "replay", a.prop)
             os.makedirs(rd, exist_ok=True)
             rp = os.path.join(rd, "%s.%s.json" % (u["name"], re.sub(r"[^A-Za-z0-9_.-]", "_", f["id"])))
-            nat = driver.native_replay(u, f.get("IN"), extra_defines=tuple(defs))
+            nat = driver.native_replay(u, f.get("IN"), extra_defines=tuple(defs), failed=f)
             rec = {"property": a.prop, "unit": u["name"], "functions": u["functions"], "tu": u["tu"],
                    "failed_obligation": f["id"], "obligation_text": f["description"],
                    "location": {"file": f.get("file"), "line": f.get("line"), "function": f.get("function")},
@@ -126,7 +126,7 @@ def main():
     main_recs = [r for r in unit_records if r["variant"] in ("main",)]
     nob = sum(r["obligations"] for r in main_recs)
     ndis = sum(r["discharged"] for r in main_recs)
-    all_unbounded = all(r["label"] in ("proved-unbounded", "proved-lemma") for r in main_recs)
+    all_unbounded = all(r["label"] in driver.PROOF_LABELS for r in main_recs)
     level = "proof" if all_unbounded else "other"
     trusted = sorted({t for r in main_recs for t in r["trusted"]})
     samples = []
@@ -134,7 +134,7 @@ def main():
         for s in r["samples"][:2]:
             samples.append({"unit": r["unit"], **s})
     expl = ("Contract-based deductive check with CBMC 6.11 code contracts on the real translation units. "
-            "Units labelled proved-unbounded have no shape/length bound (loop-free or loops closed by loop contracts); "
+            "Units labelled proved-unbounded have no shape/length bound (loop-free or loops closed by loop contracts); proved-complete: every loop is bounded by a constant of the code (operand width, table size) and fully unwound with unwinding assertions; "
             "units labelled bounded(...) are bounded stand-ins with the stated bound and are not counted as proved: "
             + "; ".join("%s=%s[%s]" % (r["unit"], r["label"], r["bound"]) for r in main_recs))
     cov = {"obligations": nob, "discharged": ndis,
